@@ -29,9 +29,11 @@ structure LInv (g : G) : Prop where
   holder : ∀ i t, (g.locks i).holder = some t ↔ (holds (g.threads t).pc = true ∧ (g.threads t).lk = i)
   freshK : ∀ k i, g.keys k = some i → i < g.nextId
   freshT : ∀ t, inLock (g.threads t).pc = true → (g.threads t).lk < g.nextId
+  /-- different keys have different lock objects -/
+  inj : ∀ k k' i, g.keys k = some i → g.keys k' = some i → k = k'
 
 theorem linv_init (reqs : Tid → Req) (t0 : Nat) : LInv (init reqs t0) := by
-  refine ⟨?_, ?_, ?_, ?_, ?_, ?_, ?_⟩ <;> intros <;> simp_all [init, inLock, holds]
+  refine ⟨?_, ?_, ?_, ?_, ?_, ?_, ?_, ?_⟩ <;> intros <;> simp_all [init, inLock, holds]
 
 /-- steps that leave the lock table alone and keep the thread in the same lock region -/
 theorem linv_quiet {g g' : G} {t : Tid} (hi : LInv g)
@@ -56,7 +58,7 @@ theorem linv_quiet {g g' : G} {t : Tid} (hi : LInv g)
     intro t'; by_cases h : t' = t
     · subst h; exact hreq
     · rw [hoth t' h]
-  refine ⟨?_, ?_, ?_, ?_, ?_, ?_, ?_⟩
+  refine ⟨?_, ?_, ?_, ?_, ?_, ?_, ?_, by rw [hk]; exact hi.inj⟩
   · intro t' h; rw [hIn] at h; rw [hRq, hLk, hk]; exact hi.ptr t' h
   · intro i t'; rw [hl, hIn, hLk]; exact hi.users i t'
   · intro i; rw [hl]; exact hi.nodup i
@@ -80,7 +82,17 @@ theorem linv_dec {g : G} {t : Tid} {k : Key} {keys' : Key → Option Nat} (hi : 
   have hcnt := hi.count (g.threads t).lk
   obtain ⟨k0, hk0, hp0⟩ := hi.ptr t hin
   rw [hk] at hk0; cases hk0
-  refine ⟨?_, ?_, ?_, ?_, ?_, ?_, ?_⟩
+  refine ⟨?_, ?_, ?_, ?_, ?_, ?_, ?_, ?_⟩
+  rotate_right
+  · intro k1 k2 i' h1 h2
+    simp only [setThread_keys] at h1 h2
+    rcases hkeys with ⟨rfl, _⟩ | ⟨rfl, _⟩
+    · exact hi.inj k1 k2 i' h1 h2
+    · by_cases e1 : k1 = k
+      · simp [e1] at h1
+      · by_cases e2 : k2 = k
+        · simp [e2] at h2
+        · simp [e1] at h1; simp [e2] at h2; exact hi.inj k1 k2 i' h1 h2
   · intro t' h
     by_cases ht : t' = t
     · subst ht; simp [inLock] at h
@@ -210,7 +222,7 @@ theorem linv_step (life : Nat) {g g' : G} {t : Tid} (hi : LInv g) (hs : Step lif
   | incOld hpc k hk i hki =>
     have hnotin : inLock (g.threads t).pc = false := by simp [hpc, inLock]
     have hnh : holds (g.threads t).pc = false := by simp [hpc, holds]
-    refine ⟨?_, ?_, ?_, ?_, ?_, ?_, ?_⟩
+    refine ⟨?_, ?_, ?_, ?_, ?_, ?_, ?_, hi.inj⟩
     · intro t' h
       by_cases ht : t' = t
       · subst ht; simp only [setThread_threads_same, setThread_keys, setLock_keys]; exact ⟨k, hk, hki⟩
@@ -269,7 +281,15 @@ theorem linv_step (life : Nat) {g g' : G} {t : Tid} (hi : LInv g) (hs : Step lif
   | incNew hpc k hk hki =>
     have hnotin : inLock (g.threads t).pc = false := by simp [hpc, inLock]
     have hnh : holds (g.threads t).pc = false := by simp [hpc, holds]
-    refine ⟨?_, ?_, ?_, ?_, ?_, ?_, ?_⟩
+    refine ⟨?_, ?_, ?_, ?_, ?_, ?_, ?_, ?_⟩
+    rotate_right
+    · intro k1 k2 i' h1 h2
+      simp only [setThread_keys, setLock_keys] at h1 h2
+      by_cases e1 : k1 = k <;> by_cases e2 : k2 = k
+      · rw [e1, e2]
+      · simp [e1, e2] at h1 h2; have := hi.freshK k2 i' h2; omega
+      · simp [e1, e2] at h1 h2; have := hi.freshK k1 i' h1; omega
+      · simp [e1, e2] at h1 h2; exact hi.inj k1 k2 i' h1 h2
     · intro t' h
       by_cases ht : t' = t
       · subst ht
@@ -340,7 +360,7 @@ theorem linv_step (life : Nat) {g g' : G} {t : Tid} (hi : LInv g) (hs : Step lif
       · simp only [setThread_threads_ne _ _ ht, setLock_threads, setThread_nextId, setLock_nextId] at h ⊢
         have := hi.freshT t' h; omega
   | acquire hpc hh =>
-    refine ⟨?_, ?_, ?_, ?_, ?_, ?_, ?_⟩
+    refine ⟨?_, ?_, ?_, ?_, ?_, ?_, ?_, hi.inj⟩
     · intro t' h
       by_cases ht : t' = t
       · subst ht
@@ -398,7 +418,7 @@ theorem linv_step (life : Nat) {g g' : G} {t : Tid} (hi : LInv g) (hs : Step lif
         exact hi.freshT t' h
   | release hpc =>
     have hmine : (g.locks (g.threads t).lk).holder = some t := (hi.holder _ t).2 ⟨by simp [hpc, holds], rfl⟩
-    refine ⟨?_, ?_, ?_, ?_, ?_, ?_, ?_⟩
+    refine ⟨?_, ?_, ?_, ?_, ?_, ?_, ?_, hi.inj⟩
     · intro t' h
       by_cases ht : t' = t
       · subst ht
